@@ -868,3 +868,46 @@ Proof.
   unfold oidx, gidx. exact (H Hm1 Hq1 Hm2 Hq2 Hm3 Hq3 Hm4 Hq4).
 Qed.
 End EriAsm.
+
+(* ------------------------------------------------------------------ *)
+(* the hypotheses are satisfiable (labelled integers, Proofs/PermEx.v: shells with 1, 2 (two segments) and
+   2 (spherical, from 3 Cartesian components) functions); one instance evaluated *)
+(* ------------------------------------------------------------------ *)
+From Coq Require Import ZArith.
+From GB Require Import Proofs.PermEx.
+
+Lemma ex_block4_hyps :
+  (forall k, k < 3 -> nsh (nM k) (nL4 k) (sh_n (nth k ss4 (mkSh false [] [])))) /\
+  (forall k, k < 3 -> sh_sph (nth k ss4 (mkSh false [] [])) = true ->
+     Forall (fun r => length r = nL4 k) (sh_T (nth k ss4 (mkSh false [] [])))) /\
+  (forall i j k l, i < 3 -> j < 3 -> k < 3 -> l < 3 ->
+     sh8 (nM i) (nL4 i) (nM j) (nL4 j) (nM k) (nL4 k) (nM l) (nL4 l) (raw4 i j k l)) /\
+  sym8 0%Z 3 (B4f 0%Z Z.add Z.mul 2 ss4 raw4) /\ sym8 0%Z 3 (B4f 0%Z Z.add Z.mul 0 ss4 raw4).
+Proof.
+  split; [|split; [|split; [|split]]].
+  - intros k Hk. cases3 k Hk; (split; [reflexivity|repeat constructor]).
+  - intros k Hk. cases3 k Hk; cbn; intros E; try discriminate. repeat constructor.
+  - intros i j k l Hi Hj Hk Hl. unfold sh8, L2s, lshape, raw4.
+    split; [apply mk_length|]. apply Forall_mk'; intros m1 _.
+    split; [apply mk_length|]. apply Forall_mk'; intros i1 _.
+    split; [apply mk_length|]. apply Forall_mk'; intros m2 _.
+    split; [apply mk_length|]. apply Forall_mk'; intros i2 _.
+    split; [apply mk_length|]. apply Forall_mk'; intros m3 _.
+    split; [apply mk_length|]. apply Forall_mk'; intros i3 _.
+    split; [apply mk_length|]. apply Forall_mk'; intros m4 _.
+    split; [apply mk_length|]. apply Forall_mk'; intros i4 _. exact I.
+  - exact ex_sym8.
+  - intros i j k l Hi Hj Hk Hl. cases3 i Hi; cases3 j Hj; cases3 k Hk; cases3 l Hl;
+      vm_compute; repeat split; reflexivity.
+Qed.
+
+(* entry (shell 2 function 1, shell 1 segment 1, shell 2 function 0, shell 0) of the mixed array, and the same
+   number from the all-Cartesian array through T of the spherical shell 2 on indices 1 and 3 *)
+Lemma ex_block4_instance :
+  let mix := four_symm 0%Z Z.add Z.mul 2 ss4 raw4 in
+  let cart := four_symm 0%Z Z.add Z.mul 0 ss4 raw4 in
+  let T := sh_T sh_c in
+  Assembly14.get4 0%Z mix 4 2 3 0
+  = fold_right Z.add 0%Z (mk 3 (fun c1 => (nth c1 (nth 1 T []) 0 * fold_right Z.add 0 (mk 3 (fun c3 =>
+      nth c3 (nth 0 T []) 0 * Assembly14.get4 0%Z cart (3 + c1) 2 (3 + c3) 0)))%Z)).
+Proof. vm_compute. reflexivity. Qed.
